@@ -140,7 +140,9 @@ def concretise(hist, payload=default_payload, skin=None, k0=0):
         elif c == "subc":
             t = f"  > commit subject tokZ{k}Z"
         elif c in ("subm", "subp"):
-            t = ("-" if c == "subm" else "+") + "Subproject commit " + ("%040x" % (0xabcdef0123456789 * (k + 7)))[:40]
+            # (a repository that uses SHA-256 has 64-digit hashes)
+            hx = ("%064x" % (0xabcdef0123456789abcdef * (k + 7) ** 3))[:64] if skin.get("subhash64") else ("%040x" % (0xabcdef0123456789 * (k + 7)))[:40]
+            t = ("-" if c == "subm" else "+") + "Subproject commit " + hx
         elif c == "onlyin":
             # diff -r: a file present on one side only ("Only in <directory>: <name>")
             bp = bare_path(f, skin)
